@@ -27,6 +27,8 @@ EVIDENCE = {
     'stub': ['SimLink', 'SimCF TOC services (DESIGN Appendix A)'],
     'assumptions': [
         'stale replies are replies to requests of this session (a FIFO device cannot produce others)',
+        'cache present: a second Crazyflie object connects over the same (simulated) read-write cache directory; crash '
+        'consistency of the cache is C11\'s subject',
         'requests without an expected reply (platform version, link source) are never lost: the library promises no '
         'recovery for them',
         'log TOC type byte is the plain type id 1..8 (the library rejects any other value with KeyError)',
@@ -59,6 +61,7 @@ def gen(seed):
         rates['down_loss'] = rng.choice([0.05, 0.2])
     knobs['rates'] = rates
     knobs['unsolicited'] = rng.random() < 0.2
+    knobs['cache'] = (not big) and rng.random() < 0.3      # second connection served by the table cache (SimFS)
     knobs['max_steps'] = 30_000_000
     knobs['max_no_progress'] = 30_000_000      # zero-latency handshakes with 600-entry tables
     return {'seed': seed, 'scenario': 'toc-' + mode, 'knobs': knobs, 'device': dev, 'ops': []}
@@ -107,27 +110,46 @@ def execute(ctx):
             ctx.violation('3', 'lookup-inconsistent', 'at connected: %s' % d[:5])
         done['connected'] = sim.now
 
-    def scenario():
-        cf = Crazyflie()
+    cache = ctx.knobs.get('cache')
+    if cache:
+        from world.simfs import SimFS
+        fs = SimFS()
+        fs.install()
+
+    def one_connection(round_):
+        done.pop('connected', None)
+        cf = Crazyflie(rw_cache='/rw') if cache else Crazyflie()
         done['cf'] = cf
         cf.connected.add_callback(on_connected)
         if ctx.knobs.get('unsolicited') and dev.v2 and dev.param_toc:
-            # unsolicited value-updated notifications while the tables are being downloaded
+            # unsolicited value-updated notifications while the tables are being downloaded / loaded from the cache
             def note():
-                if 'connected' not in done:
+                if 'connected' not in done and done.get('cf') is cf:
                     dev.notify_param(ctx.work.randrange(len(dev.param_toc)))
                     sim.after(0.004, note)
-            sim.after(0.01, note)
+            sim.after(0.001 if round_ else 0.01, note)
         cf.open_link('sim://cf')
         n = len(dev.log_toc) + len(dev.param_toc)
         bound = 60 + n * 1.0
         if not common.wait_until(sim, lambda: 'connected' in done, bound, 0.02):
-            ctx.violation('0', 'never-connected', 'connected not signalled within %.0f s; fired=%s'
-                          % (bound, ctx.faults.fired_counts()),
+            ctx.violation('0', 'never-connected', 'connected not signalled within %.0f s (connection %d, cache %s); fired=%s'
+                          % (bound, round_, bool(cache), ctx.faults.fired_counts()),
                           [(t['thread'], t['waiting_on']) for t in sim.describe_threads()])
+            return False
         P.sim_sleep(0.5)
         cf.close_link()
         P.sim_sleep(0.3)
+        return True
+
+    def scenario():
+        if not one_connection(0):
+            return
+        if cache:
+            # a second Crazyflie object over the same cache directory: the tables now come from the cache
+            n0 = len(dev.toc_requests)
+            if one_connection(1):
+                if not any(t[3] in (0, 2) for t in dev.toc_requests[n0:]):
+                    ctx.probe('tables taken from the cache')
 
     verdict = sim.run(scenario)
     if verdict[0] in ('deadlock', 'timeout', 'livelock'):
